@@ -3,6 +3,7 @@ package c12
 
 import (
 	"context"
+	"encoding/json"
 	"fmt"
 	"math/rand/v2"
 	"runtime"
@@ -396,8 +397,10 @@ func poolBound(t *testing.T, idx int64, r *rand.Rand) {
 	ord := []pool.Ordering{pool.OrderingFIFO, pool.OrderingLIFO}[r.IntN(2)]
 	L := 1 + r.IntN(6)
 	B := 1 + r.IntN(6)
-	kind := []string{"fixed", "generic"}[r.IntN(2)]
+	kind := []string{"fixed", "generic", "fifo-constructor", "lifo-constructor", "json-config"}[r.IntN(5)]
 	extra := 1 + r.IntN(3)
+	hasReg := true
+	tArg := []time.Duration{time.Hour, 0}[r.IntN(2)] // 0: "give me the default time-out" (one second) - the bound is still B
 	var sig string
 	var detail rt.J
 	bubble(t, func(t *testing.T) {
@@ -414,11 +417,28 @@ func poolBound(t *testing.T, idx int64, r *rand.Rand) {
 			if err != nil {
 				panic(err)
 			}
-			gp, err := pool.NewPool(dl, ord, B, time.Hour, nil, reg)
-			if err != nil {
-				panic(err)
+			switch kind {
+			case "generic":
+				gp, err := pool.NewPool(dl, ord, B, time.Hour, nil, reg)
+				if err != nil {
+					panic(err)
+				}
+				p = gp
+			case "fifo-constructor":
+				p, hasReg = limiter.NewFifoBlockingLimiter(dl, B, tArg), false
+			case "lifo-constructor":
+				p = limiter.NewLifoBlockingLimiter(dl, B, tArg, reg)
+			default:
+				// the configuration as an application reads it from a file: through encoding/json and the struct's tags
+				src := fmt.Sprintf(`{"ordering":%q,"maxBacklogSize":%d,"maxBacklogTimeout":%d,"backlogEvictDoneCtx":%v}`,
+					[]string{"fifo", "lifo"}[r.IntN(2)], B, int64(tArg), r.IntN(2) == 0)
+				var qc limiter.QueueLimiterConfig
+				if err := json.Unmarshal([]byte(src), &qc); err != nil {
+					panic(err)
+				}
+				qc.MetricRegistry = reg
+				p = limiter.NewQueueBlockingLimiterFromConfig(dl, qc)
 			}
-			p = gp
 		}
 		var held []core.Listener
 		for i := 0; i < L; i++ {
@@ -451,10 +471,10 @@ func poolBound(t *testing.T, idx int64, r *rand.Rand) {
 				sig, detail = "caller-waits-although-the-backlog-holds-its-configured-maximum", rt.J{"arrival": i, "returned": w.done.Load(), "callers_already_blocked": B}
 			}
 		}
-		if g, ok := reg.GaugeByPrefix(core.MetricQueueLimit); sig == "" && (!ok || int(g) != B) {
+		if g, ok := reg.GaugeByPrefix(core.MetricQueueLimit); hasReg && sig == "" && (!ok || int(g) != B) {
 			sig, detail = "queue-limit-gauge-differs-from-the-configured-bound", rt.J{"gauge": g}
 		}
-		if g, ok := reg.GaugeByPrefix(core.MetricQueueSize); sig == "" && (!ok || int(g) != B) {
+		if g, ok := reg.GaugeByPrefix(core.MetricQueueSize); hasReg && sig == "" && (!ok || int(g) != B) {
 			sig, detail = "queue-size-differs-from-blocked-callers", rt.J{"gauge": g, "blocked": B}
 		}
 		for _, w := range ws {
@@ -475,7 +495,8 @@ func poolBound(t *testing.T, idx int64, r *rand.Rand) {
 		synctest.Wait()
 	})
 	rt.Count("pool_backlog_bound_cases", 1)
-	cfg := rt.J{"pool": kind, "ordering": ord, "limit": L, "max_backlog": B, "arrivals": B + extra}
+	cfg := rt.J{"pool": kind, "ordering": ord, "limit": L, "max_backlog": B, "arrivals": B + extra, "timeout_argument": tArg.String()}
+	rt.Count("backlog_bound_cases/"+kind, 1)
 	if sig != "" {
 		detail["config"] = cfg
 		rt.Violation(fmt.Sprintf("C12/pool-%s/%s", kind, sig), idx, detail)
